@@ -109,7 +109,7 @@ fn replay_one(cfg: &Config, b: &Value, timeout: Duration) -> (Value, Vec<sched::
         let p = progs[c].clone();
         handles.push(
             std::thread::Builder::new()
-                .name(format!("{}-pool_thread_{}", env.cfg.name, role))
+                .name(client_thread_name(&env.cfg.name, &role, b["id"].as_u64().unwrap_or(0) % 2 == 1))
                 .spawn(move || client_main(shc, role, p))
                 .unwrap(),
         );
